@@ -403,7 +403,7 @@ class SchemaGen:
             t.sp = r.choice(["pipe", "nonefirst", "unionnone"])
         elif t.kind in ("list", "set", "frozenset", "dict", "tuplevar", "tuplefix") and r.random() < 0.25:
             t.sp = "builtin"
-        if t.kind != "none" and not (t.kind == "data" and t.extra == "fwd") and r.random() < 0.07:
+        if t.kind != "none" and not (t.kind == "data" and t.extra == "fwd") and r.random() < (0.15 if t.kind == "opt" else 0.06):
             t.ann = True
         return t
 
@@ -600,6 +600,11 @@ class SchemaGen:
             if self.o.coq_only and r.random() < 0.08:
                 ft = r.choice([T("none"), T("tuplefix", [])])      # constant positions (never read their item)
             spec.fields.append(FieldSpec(f"a{i}", ft))
+        if all(f.ty.kind == "none" or (f.ty.kind == "tuplefix" and not f.ty.args) for f in spec.fields):
+            # a class ALL of whose positions are constants is itself a constant expression (NT(None) never reads its
+            # input, at any nesting depth); TyModel's const_dec knows only None and Tuple[()] -- stated model limit,
+            # such classes are left to the wide oracle stream
+            spec.fields[0].ty = T("int")
         # trailing defaults (decoding a shorter list falls back to them)
         for f in reversed(spec.fields):
             dv = self.simple_default(f.ty) if r.random() < 0.4 else None
